@@ -555,6 +555,12 @@ impl<Tx: Debug + ProstMessage + Default, Rx: Debug + ProstMessage + Default> Cha
             // disconnects cleanly instead of running the doubling growth
             // strategy on attacker-supplied numbers.
             if message_len > self.max_buffer_size {
+                // such a frame can never be buffered and the stream cannot be
+                // resynchronised: flag the channel as failed so that its owner
+                // closes it instead of polling a dead channel forever
+                self.interest = Ready::EMPTY;
+                self.readiness.remove(Ready::READABLE);
+                self.readiness.insert(Ready::ERROR);
                 return Err(ChannelError::MessageTooLarge {
                     message_len,
                     capacity: self.front_buf.capacity(),
